@@ -92,7 +92,7 @@ VARIANT_OF = {"check": "internal.stateful.check", "pop": "internal.stateful.pop"
 PROBES = ["pool_scope", "check_mode_images", "get_state_images", "get_mode_images", "set_state_images",
           "set_mode_images", "unset_state_images", "unset_mode_images", "nets"]
 KEEP = re.compile(r"^(vm_action|skip_image_processing|vms|main_vm|object_suffix|pool_scope|nets|"
-                  r"(get|set|unset|check)_(state|mode)(_.*)?|unset_mode.*|c20_.*|setup)$")
+                  r"(get|set|unset|check)_(state|mode)(_.*)?|unset_mode.*|c20_.*|setup|max_tries|stop_status)$")
 
 
 def cmdline(case):
@@ -483,9 +483,15 @@ def gen_sched(rng, nets):
 
 
 def gen_extra(rng):
+    extra = {}
     if rng.random() < 0.6:
-        return {"c20_marker": rng.choice(["x17", "a b c", "yes", "0"])}
-    return {}
+        extra["c20_marker"] = rng.choice(["x17", "a b c", "yes", "0"])
+    if rng.random() < 0.3:
+        # a retry budget on the command line (as people pass it for run/update steps): a manual step still acts once
+        extra["max_tries"] = rng.choice(["2", "3"])
+        if rng.random() < 0.4:
+            extra["stop_status"] = "fail"
+    return extra
 
 
 def gen_single(rng, tool, small=False):
@@ -559,6 +565,8 @@ def gen_cases(rng, thorough):
                   "extra": {"unset_mode_vm2": "ri"}, "sched": None, "fail": None, "via": rng.choice(["manu", "direct"])})
     cases.append({"chain": ["unset"], "vms": {"vm1": VARIANTS["vm1"][0], "vm2": VARIANTS["vm2"][0]}, "nets": ["net2"],
                   "extra": {"unset_mode": "ri"}, "sched": None, "fail": None, "via": "manu"})
+    cases.append({"chain": ["get", "set"], "vms": {"vm1": VARIANTS["vm1"][0], "vm2": VARIANTS["vm2"][0]}, "nets": ["net1", "net2"],
+                  "extra": {"max_tries": "2"}, "sched": None, "fail": None, "via": "manu"})
     # regression of 3361dd0: chains that repeat a step (README: "adding multiple run steps throughout the setup chain")
     cases.append({"chain": ["noop", "noop"], "vms": {"vm1": None}, "nets": ["net1"], "via": "manu"})
     if thorough:
